@@ -1,34 +1,29 @@
-(* C11 inbound: the invariant holds in every reachable state; the property lemmas. *)
-From Gv Require Import lib.Bytes C11.Model C11.Spec C11.ProofsInb C11.ProofsInbA C11.ProofsInbB C11.ProofsInbC
-  C11.ProofsInbD C11.ProofsInbE.
+(* C11 subgraph: the invariant holds in every reachable state; the property lemmas. *)
+From Gv Require Import lib.Bytes C11.Model C11.Spec C11.ProofsSub C11.ProofsSubA C11.ProofsSubB.
 From Coq Require Import Arith Lia Bool.
-Import Inb.
+Import Sub.
 
 Section S.
 Variable reqs : list req.
-Notation rq := (Inb.rq reqs).
-Notation exists_b := (Inb.exists_b reqs).
+Notation rq := (Sub.rq reqs).
+Notation exists_b := (Sub.exists_b reqs).
 Notation Inv := (Inv reqs).
-Notation step := (Inb.step fixed reqs).
-Notation run := (Inb.run fixed reqs).
+Notation step := (Sub.step fixed reqs).
+Notation run := (Sub.run fixed reqs).
 
 Lemma inv_step s x s' : Inv s -> step s x = Some s' -> Inv s'.
 Proof.
-  intros HI Hs. unfold Inb.step in Hs.
-  destruct (Inb.exists_b reqs (actor_of x)) eqn:He; [|discriminate].
+  intros HI Hs. unfold Sub.step in Hs.
+  destruct (Sub.exists_b reqs (actor_of x)) eqn:He; [|discriminate].
   destruct x as [i|i|i|i w|i]; cbn [actor_of] in He.
   - destruct (a_pc (act s i)) eqn:Hpc.
     + eapply inv_tau_start; eauto.
     + eapply inv_tau_y1; eauto.
     + unfold tau in Hs; rewrite Hpc in Hs; discriminate.
     + unfold tau in Hs; rewrite Hpc in Hs; discriminate.
+    + eapply inv_tau_publish; eauto.
     + eapply inv_tau_delete; eauto.
-    + eapply inv_tau_hasf; eauto.
-    + eapply inv_tau_copy; eauto.
     + eapply inv_tau_close; eauto.
-    + eapply inv_tau_fdelete; eauto.
-    + eapply inv_tau_ferr; eauto.
-    + eapply inv_tau_fclose; eauto.
     + unfold tau in Hs; rewrite Hpc in Hs; discriminate.
   - eapply inv_wake_done; eauto.
   - eapply inv_wake_ctx; eauto.
@@ -69,15 +64,13 @@ Proof.
   exists (tr ++ [x]), o'. exact H'.
 Qed.
 
-(* ---- no close of a closed channel, no panic ---- *)
 Lemma no_double_close_l s i j :
-  reach s -> exists_b i = true ->
-  (a_pc (act s i) = PClose \/ a_pc (act s i) = PFClose) -> a_ref (act s i) = Some j ->
-  e_done (ent s j) = false.
+  reach s -> exists_b i = true -> a_pc (act s i) = PClose -> a_ref (act s i) = Some j ->
+  it_loaded (itm s j) = false.
 Proof.
   intros HR He Hpc Hr. apply reach_inv in HR.
-  assert (j = i) by (eapply own_ref; eauto; destruct Hpc as [-> | ->]; reflexivity). subst j.
-  apply (c_lead_open _ _ HR i Hr). destruct Hpc as [-> | ->]; reflexivity.
+  assert (j = i) by (eapply own_ref; eauto; rewrite Hpc; reflexivity). subst j.
+  apply (c_lead_open _ _ HR i Hr). rewrite Hpc; reflexivity.
 Qed.
 
 Lemma no_panic_state s i : reach s -> a_out (act s i) <> Some OPanic.
@@ -103,20 +96,18 @@ Qed.
 Lemma no_panic_obs tr s o i : run tr init = Some (s, o) -> ~ In (ORet i OPanic) o.
 Proof. apply no_panic_obs_from, inv_init. Qed.
 
-(* ---- what a follower writes is what its leader wrote ---- *)
 Lemma follower_bytes_l s i k d j :
   reach s -> a_out (act s i) = Some (OWrote k d (Some j)) ->
-  j <> i /\ e_data (ent s j) = Some (k, d) /\ a_out (act s j) = Some (OWrote k d None) /\
-  d = body (rq j) k /\ k <> KCan.
+  j <> i /\ it_resp (itm s j) = Some d /\ a_out (act s j) = Some (OWrote KOk d None) /\
+  d = rok (rq j) /\ k = KOk.
 Proof.
   intros HR Ho. apply reach_inv in HR.
-  destruct (c_out_sh _ _ HR _ _ _ _ Ho) as (N & Hr & Hd & _).
-  destruct (c_data _ _ HR _ _ _ Hd) as (_ & _ & Hoj & Hk).
-  destruct (c_out_own _ _ HR _ _ _ Hoj) as (Hb & _).
+  destruct (c_out_sh _ _ HR _ _ _ _ Ho) as (N & Hr & Hd & Hk & _).
+  destruct (c_resp _ _ HR _ _ Hd) as (Hoj & _).
+  destruct (c_out_own _ _ HR _ _ _ Hoj) as (_ & Hb & _).
   repeat split; auto.
 Qed.
 
-(* ---- sharing only between eligible requests with the same key ---- *)
 Lemma shared_key_query_l s i j :
   reach s -> a_ref (act s i) = Some j -> j <> i ->
   rkey (rq i) = rkey (rq j) /\ elig (rq i) = true /\ elig (rq j) = true.
@@ -133,7 +124,6 @@ Proof.
   destruct (c_out_sh _ _ HR _ _ _ _ Ho) as (N & Hr & _). auto.
 Qed.
 
-(* ---- origin of every returned error ---- *)
 Lemma err_origin_l s i e :
   reach s -> a_out (act s i) = Some (OErr e) ->
   (e = ECtx i /\ a_cancel (act s i) = true) \/
@@ -143,64 +133,51 @@ Lemma err_origin_l s i e :
 Proof.
   intros HR Ho. pose proof (reach_inv _ HR) as HI. destruct e as [a|a].
   - destruct (c_out_up _ _ HI _ _ Ho) as [(-> & Ha)|(N & Hr & He & _)]; [auto|].
-    right; right. exists a. destruct (c_err _ _ HI _ _ He) as (_ & Ha).
+    right; right. exists a. destruct (c_err _ _ HI _ _ He) as (_ & Ha & _).
     destruct (shared_key_query_l _ _ _ HR Hr N) as (? & ? & ?). repeat split; auto.
   - destruct (c_out_ctx _ _ HI _ _ Ho) as (-> & Hc). auto.
 Qed.
 
-(* ---- transparency: the bytes written are the bytes the request gets on its own ---- *)
 
 Lemma transparent_l s i k d f :
-  key_determines_body reqs -> reach s -> a_out (act s i) = Some (OWrote k d f) ->
-  d = body (rq i) k /\ (k = KCan -> f = None /\ a_cancel (act s i) = true).
+  sub_key_determines_body reqs -> reach s -> a_out (act s i) = Some (OWrote k d f) ->
+  k = KOk /\ d = rok (rq i).
 Proof.
   intros KD HR Ho. pose proof (reach_inv _ HR) as HI. destruct f as [j|].
   - destruct (follower_bytes_l _ _ _ _ _ HR Ho) as (N & _ & _ & Hb & Hk).
     destruct (shared_out_ref _ _ _ _ _ HR Ho) as (Hr & _).
     destruct (shared_key_query_l _ _ _ HR Hr N) as (Hkey & _).
-    destruct (KD _ _ Hkey) as (E1 & E2).
-    split; [|intro; contradiction].
-    subst d. unfold Inb.rq in *. destruct k; cbn; congruence.
-  - destruct (c_out_own _ _ HI _ _ _ Ho) as (Hb & Hc & _). split; auto.
+    split; [assumption|]. unfold Sub.rq in *. rewrite (KD _ _ Hkey). assumption.
+  - destruct (c_out_own _ _ HI _ _ _ Ho) as (Hk & Hb & _). split; auto.
 Qed.
 
-(* ---- progress: some non-cancel action is enabled while anybody has not returned ---- *)
 Lemma step_tau_enabled s i :
   Inv s -> exists_b i = true ->
-  match a_pc (act s i) with PWait | PWork | PDone => False | _ => True end ->
+  match a_pc (act s i) with PWait | PLoad | PDone => False | _ => True end ->
   step s (Tau i) <> None.
 Proof.
-  intros HI He Hp. unfold Inb.step. cbn [actor_of]. rewrite He. unfold tau.
+  intros HI He Hp. unfold Sub.step. cbn [actor_of]. rewrite He. unfold tau.
   destruct (a_pc (act s i)) eqn:Hpc; try contradiction.
   - destruct (elig (rq i)); [destruct (tbl s (rkey (rq i)))|]; discriminate.
-  - destruct (a_ref (act s i)) eqn:Hr; [discriminate|].
-    pose proof (c_noref _ _ HI i Hr) as X. rewrite Hpc in X. discriminate.
-  - destruct (a_ref (act s i)) eqn:Hr; [discriminate|].
-    pose proof (c_noref _ _ HI i Hr) as X. rewrite Hpc in X. discriminate.
-  - destruct (a_ref (act s i)) eqn:Hr; [discriminate|].
-    pose proof (c_noref _ _ HI i Hr) as X. rewrite Hpc in X. discriminate.
-  - destruct (a_ref (act s i)) eqn:Hr; [destruct (a_hasf (act s i)); discriminate|].
-    pose proof (c_noref _ _ HI i Hr) as X. rewrite Hpc in X. discriminate.
-  - destruct (a_ref (act s i)) eqn:Hr; [discriminate|].
-    pose proof (c_noref _ _ HI i Hr) as X. rewrite Hpc in X. discriminate.
-  - destruct (a_ref (act s i)) eqn:Hr; [discriminate|].
-    pose proof (c_noref _ _ HI i Hr) as X. rewrite Hpc in X. discriminate.
+  - discriminate.
   - destruct (a_ref (act s i)) eqn:Hr.
-    + destruct (fix_b fixed && a_cancel (act s n)); discriminate.
+    + destruct (a_lres (act s i)); [discriminate|]. destruct (fix_b fixed && a_cancel (act s i)); discriminate.
     + pose proof (c_noref _ _ HI i Hr) as X. rewrite Hpc in X. discriminate.
   - destruct (a_ref (act s i)) eqn:Hr; [discriminate|].
+    pose proof (c_noref _ _ HI i Hr) as X. rewrite Hpc in X. discriminate.
+  - destruct (a_ref (act s i)) eqn:Hr; [destruct (it_loaded (itm s n)); discriminate|].
     pose proof (c_noref _ _ HI i Hr) as X. rewrite Hpc in X. discriminate.
 Qed.
 
 Lemma step_ans_enabled s i :
-  exists_b i = true -> a_pc (act s i) = PWork -> step s (Ans i AOk) <> None.
+  exists_b i = true -> a_pc (act s i) = PLoad -> step s (Ans i AOk) <> None.
 Proof.
-  intros He Hpc. unfold Inb.step. cbn [actor_of]. rewrite He. unfold ans. rewrite Hpc. discriminate.
+  intros He Hpc. unfold Sub.step. cbn [actor_of]. rewrite He. unfold ans. rewrite Hpc. discriminate.
 Qed.
 
 Lemma exists_of_moved s i : Inv s -> a_pc (act s i) <> PStart -> exists_b i = true.
 Proof.
-  intros HI Hp. destruct (Inb.exists_b reqs i) eqn:He; [reflexivity|].
+  intros HI Hp. destruct (Sub.exists_b reqs i) eqn:He; [reflexivity|].
   rewrite (c_absent _ _ HI i He) in Hp. cbn in Hp. congruence.
 Qed.
 
@@ -216,10 +193,11 @@ Proof.
     2:{ pose proof (c_noref _ _ HI i Hr) as X. rewrite Hpc in X. discriminate. }
     assert (N : j <> i).
     { intro; subst. destruct (c_lead _ _ HI i Hr) as [_ L]. rewrite Hpc in L. discriminate. }
-    destruct (e_done (ent s j)) eqn:Hd.
+    destruct (it_loaded (itm s j)) eqn:Hd.
     + exists (WakeDone i). split; [reflexivity|].
-      unfold Inb.step. cbn [actor_of]. rewrite He. unfold wake_done. rewrite Hpc, Hr, Hd.
-      destruct (e_err (ent s j)); [discriminate|]. destruct (e_data (ent s j)) as [[? ?]|]; discriminate.
+      unfold Sub.step. cbn [actor_of]. rewrite He. unfold wake_done. rewrite Hpc, Hr, Hd.
+      destruct (it_abandoned (itm s j)); [discriminate|].
+      destruct (it_err (itm s j)); [discriminate|]. destruct (it_resp (itm s j)); discriminate.
     + destruct (c_foll _ _ HI _ _ Hr N) as (Hj & _).
       destruct (c_lead _ _ HI _ Hj) as (_ & Lp).
       assert (Hjd : a_pc (act s j) <> PDone).
@@ -232,7 +210,6 @@ Proof.
   - exists (Ans i AOk). split; [reflexivity|apply (step_ans_enabled s i); auto].
 Qed.
 
-(* whoever has returned has an outcome, and conversely *)
 Lemma returned_iff_outcome s i :
   reach s -> (a_pc (act s i) = PDone -> a_out (act s i) <> None) /\
              (a_out (act s i) = None -> run_pc (a_pc (act s i)) = true).
